@@ -401,13 +401,10 @@ class ScipyOptimizeDriver(Driver):
                         con_dict['args'] = [name, False, j]
                         constraints.append(con_dict)
 
-                        if isinstance(upper, np.ndarray):
-                            upper = upper[j]
+                        upper_j = upper[j] if isinstance(upper, np.ndarray) else upper
+                        lower_j = lower[j] if isinstance(lower, np.ndarray) else lower
 
-                        if isinstance(lower, np.ndarray):
-                            lower = lower[j]
-
-                        dblcon = (upper < INF_BOUND) and (lower > -INF_BOUND)
+                        dblcon = (upper_j < INF_BOUND) and (lower_j > -INF_BOUND)
 
                         # Add extra constraint if double-sided
                         if dblcon:
